@@ -12,7 +12,7 @@
   session and request options); `seqCopyOld` is the `__copy__` before that commit.
 -/
 import PydapModel.Slice
-namespace Pydap
+namespace Pydap.Proxy
 
 /-- the session a proxy carries; `none` makes `create_request` build a fresh anonymous session -/
 abbrev Sess := Option Nat
@@ -80,7 +80,7 @@ structure Heap where
   log : List (Sess × Req)
 deriving Repr, Inhabited
 
-inductive Key where
+inductive DKey where
   | name (k : Name)            -- seq["i"]
   | cols (ks : List Name)      -- seq[["f", "i"]]
   | ce (clauses : List Name)   -- seq[ConstraintExpression]: `str(key).split("&")`
@@ -90,7 +90,7 @@ deriving DecidableEq, Repr, Inhabited
 
 inductive Ev where
   | copy (r : Nat)                      -- copy.copy(proxy)
-  | getitem (r : Nat) (k : Key)         -- SequenceProxy.__getitem__
+  | getitem (r : Nat) (k : DKey)         -- SequenceProxy.__getitem__
   | iter (r : Nat)                      -- SequenceProxy.__iter__: one GET
   | aget (r : Nat) (idx : List Idx)     -- BaseProxyDap2/4.__getitem__: one GET, keeps no state
   | fattr (r : Nat) (name : Name)     -- Functions.__getattr__
@@ -118,13 +118,13 @@ def seqCopy (h : Heap) (p : SeqProxy) : Option (Heap × SeqProxy) :=
 def seqCopyOld (h : Heap) (p : SeqProxy) : Option (Heap × SeqProxy) :=
   some (h, { p with subChildren := false, session := none, opts := 0 })
 
-def keySlice : Key → Option PSlice
+def keySlice : DKey → Option PSlice
   | .idx i => some ⟨some i, some (i + 1), none⟩
   | .sl s => some s
   | _ => none
 
 /-- the body of `__getitem__` after `out = copy.copy(self)` -/
-def seqApply (h : Heap) (out : SeqProxy) : Key → Option (Heap × SeqProxy)
+def seqApply (h : Heap) (out : SeqProxy) : DKey → Option (Heap × SeqProxy)
   | .name k =>
     match h.tmpls[out.template]? with
     | none => none
@@ -144,7 +144,7 @@ def seqApply (h : Heap) (out : SeqProxy) : Key → Option (Heap × SeqProxy)
   | .sl s => some (h, { out with slice := combine (out.slice.map Idx.sl) [Idx.sl s] })
 
 /-- `SequenceProxy.__getitem__` parameterised by the copy function -/
-def seqGetitemWith (cp : Heap → SeqProxy → Option (Heap × SeqProxy)) (h : Heap) (p : SeqProxy) (k : Key) :
+def seqGetitemWith (cp : Heap → SeqProxy → Option (Heap × SeqProxy)) (h : Heap) (p : SeqProxy) (k : DKey) :
     Option (Heap × SeqProxy) :=
   match cp h p with
   | none => none
@@ -254,4 +254,4 @@ def openHeap (baseurl : Name) (baseSel : List Name) (σ : Sess) (seqName : Name)
       ++ [.fns baseurl σ],
     log := [] }
 
-end Pydap
+end Pydap.Proxy
